@@ -141,6 +141,126 @@ def nested(ctx, n0, n1):
     return ctx.done(ctx.AND(*oks), obs)
 
 
+def _perm(ctx, name, values):
+    perms = list(itertools.permutations(values))
+    return list(perms[ctx.choice(name, len(perms))])
+
+
+def history(ctx, steps, hashable=False, lkind='i', n=3):
+    """a sequence of queries and in-place edits on one array, after which the array answers every lookup like a freshly
+    constructed array with its current values, labels and dims.  hashable: labels are concrete numbers in a symbolically
+    chosen order (every order is covered) so that look-up structures keyed by label value can be executed."""
+    da, np = ctx.da, ctx.np
+    if hashable:
+        xl = _perm(ctx, 'perm0', [10 * (i + 1) for i in range(n)])
+    else:
+        xl = ctx.labels(lkind, n, 'lx_')
+    yl = ['a', 'b']
+    cells = ctx.cells('f', 2 * n, 'v')
+    a = ctx.mk(['x', 'y'], [xl, yl], cells, lkinds=[lkind if not hashable else 'i', 'U'], register=False)
+    cur = {'x': list(xl), 'cells': list(cells)}
+    oks = []
+    obs = []
+
+    def fresh_labels(tag):
+        if hashable:
+            return _perm(ctx, 'perm' + tag, [10 * (i + 2) for i in range(n)])      # overlaps the old set, shifted
+        return ctx.labels(lkind, n, 'n%s_' % tag)
+
+    def row(j):
+        return cur['cells'][2 * j:2 * j + 2]
+
+    for si, st in enumerate(steps):
+        tag = str(si)
+        if st == 'lookup':
+            j = ctx.choice('j' + tag, n)
+            r = ctx.call(lambda: a[cur['x'][j]])
+            oks.append(r[0] == 'ok' and same(ctx, r[1], Ref(['y'], [yl], row(j))))
+        elif st == 'lookup-all':
+            for j in range(n):
+                r = ctx.call(lambda: a[cur['x'][j]])
+                oks.append(r[0] == 'ok' and same(ctx, r[1], Ref(['y'], [yl], row(j))))
+        elif st == 'lookup-list':
+            r = ctx.call(lambda: a[[cur['x'][n - 1], cur['x'][0]]])
+            oks.append(r[0] == 'ok' and same(ctx, r[1], Ref(['x', 'y'], [[cur['x'][n - 1], cur['x'][0]], yl], row(n - 1) + row(0))))
+        elif st == 'slice':
+            r = ctx.call(lambda: a[cur['x'][0]:cur['x'][0]])
+            oks.append(r[0] == 'ok' and same(ctx, r[1], Ref(['x', 'y'], [[cur['x'][0]], yl], row(0))))
+        elif st == 'ismono':
+            a.axes['x'].is_monotonic()
+        elif st == 'copy':
+            a = a.copy()
+        elif st == 'T':
+            a = a.T.T
+        elif st.startswith('relabel'):
+            new = fresh_labels(tag)
+            arr = ctx.nparray(new, kind=lkind if not hashable else 'i')
+            how = st.split(':')[1]
+            if how == 'attr':
+                f = lambda: setattr(a, 'x', list(new))
+            elif how == 'attr-array':
+                f = lambda: setattr(a, 'x', arr)
+            elif how == 'axis-setitem':
+                f = lambda: a.axes['x'].__setitem__(slice(None), list(new))
+            elif how == 'axis-values':
+                f = lambda: setattr(a.axes['x'], 'values', arr)
+            elif how == 'labels':
+                f = lambda: setattr(a, 'labels', (list(new), list(yl)))
+            elif how == 'set_axis':
+                f = lambda: a.set_axis(list(new), axis='x', inplace=True)
+            elif how == 'set_axis-pos':
+                f = lambda: a.set_axis(arr, axis=0, inplace=True)
+            elif how == 'axis-set':
+                f = lambda: a.axes['x'].set(values=list(new), inplace=True)
+            elif how == 'one':
+                j = ctx.choice('j' + tag, n)
+                new = list(cur['x'])
+                new[j] = fresh_labels(tag)[0]
+                for k in range(n):
+                    if k != j:
+                        ctx.assume(ctx.NOT(new[k] == new[j]))
+                f = lambda: a.axes['x'].__setitem__(j, new[j])
+            else:
+                raise ValueError(st)
+            r = ctx.call(f)
+            if r[0] != 'ok':
+                return ctx.done(False, [st, r[1]], inplace=True)
+            cur['x'] = list(new)
+        elif st == 'put':
+            j = ctx.choice('j' + tag, n)
+            w = ctx.real('w' + tag)
+            r = ctx.call(lambda: a.__setitem__(cur['x'][j], w))
+            if r[0] != 'ok':
+                return ctx.done(False, [st, r[1]], inplace=True)
+            cur['cells'][2 * j:2 * j + 2] = [w, w]
+        else:
+            raise ValueError(st)
+    ref = Ref(['x', 'y'], [cur['x'], yl], cur['cells'])
+    oks.append(same(ctx, a, ref))
+    for j in range(n):
+        r = ctx.call(lambda: a[cur['x'][j]])
+        ok = r[0] == 'ok' and same(ctx, r[1], Ref(['y'], [yl], row(j)))
+        if ok is False:
+            obs.append(['final lookup', j, r[1] if r[0] != 'ok' else ctx.observe(r[1])])
+        oks.append(ok)
+    # a label that may or may not be on the axis
+    q = ctx.label(lkind if not hashable else 'i', 'q')
+    r = ctx.call(lambda: a[q])
+    hit = [j for j in range(n) if bool(cur['x'][j] == q)]
+    if hit:
+        oks.append(r[0] == 'ok' and same(ctx, r[1], Ref(['y'], [yl], row(hit[0]))))
+    else:
+        oks.append(r == ('exc', 'IndexError'))
+    r1 = ctx.call(lambda: a[[q]])
+    if hit:
+        oks.append(r1[0] == 'ok' and same(ctx, r1[1], Ref(['x', 'y'], [[q], yl], row(hit[0]))))
+    else:
+        oks.append(r1 == ('exc', 'IndexError'))
+    oks.append(cat.probe(ctx, a))
+    obs.append(ctx.observe(a))
+    return ctx.done(ctx.AND(*oks), obs, inplace=True)
+
+
 def rejections(ctx, case):
     """data whose shape disagrees with the axes, or duplicate dimension names, are rejected with an exception"""
     da = ctx.da
@@ -203,6 +323,28 @@ def templates():
         add('reject-%s' % case, 'rejections', cost=0.1, case=case)
     for how in ('dims', 'axis.name', 'set_axis'):
         add('rename-duplicate-%s' % how, 'rename_duplicate', cost=0.1, how=how)
+    # multi-step histories: queries, in-place relabelling by every route, then every lookup again
+    routes = ['attr', 'attr-array', 'axis-setitem', 'axis-values', 'labels', 'set_axis', 'set_axis-pos', 'axis-set', 'one']
+    for how in routes:
+        for hashable in (False, True):
+            for pre in (['lookup'], ['ismono', 'slice'], ['lookup-all', 'ismono']):
+                for n in (2, 3):
+                    add('history-%s-%s-%s-n%d' % ('_'.join(pre), how, 'hashable' if hashable else 'symbolic', n), 'history',
+                        'quick' if n == 2 or (how in ('attr', 'axis-setitem', 'one') and pre[0] == 'lookup') else 'thorough', cost=(1.5 if hashable else 3) * (1 if n == 2 else 6),
+                        steps=pre + ['relabel:' + how], hashable=hashable, n=n)
+    for hashable in (False, True):
+        h = 'hashable' if hashable else 'symbolic'
+        for n in (2, 3):
+            tier = 'quick' if n == 2 else 'thorough'
+            m = 1 if n == 2 else 60
+            add('history-copy-after-relabel-%s-n%d' % (h, n), 'history', tier, cost=2 * m, steps=['lookup', 'relabel:attr', 'copy'], hashable=hashable, n=n)
+            add('history-copy-before-relabel-%s-n%d' % (h, n), 'history', tier, cost=2 * m, steps=['lookup', 'copy', 'relabel:axis-setitem', 'lookup'], hashable=hashable, n=n)
+            add('history-two-relabels-%s-n%d' % (h, n), 'history', tier, cost=4 * m, steps=['lookup', 'relabel:attr', 'lookup', 'relabel:set_axis', 'ismono'], hashable=hashable, n=n)
+            add('history-put-%s-n%d' % (h, n), 'history', tier, cost=3 * m, steps=['lookup', 'put', 'lookup-list', 'relabel:one', 'put'], hashable=hashable, n=n)
+            add('history-T-%s-n%d' % (h, n), 'history', tier, cost=2 * m, steps=['ismono', 'T', 'relabel:labels', 'slice'], hashable=hashable, n=n)
+    for lk in 'fU':
+        add('history-%s-relabel' % lk, 'history', cost=3, steps=['lookup', 'ismono', 'relabel:attr', 'slice'], lkind=lk, n=2)
+        add('history-%s-relabel-one' % lk, 'history', cost=3, steps=['ismono', 'lookup-list', 'relabel:one'], lkind=lk, n=3)
     quick = cat.select(max_per_fn=12)
     qnames = set((c['mod'], c['name']) for c in quick)
     for c in quick:
